@@ -1145,7 +1145,22 @@ func (fl *Flow) applyCalls(fs *FactSet, n ast.Node) {
 						if _, isPtr := sig.Recv().Type().(*types.Pointer); isPtr {
 							if _, recvIsPtr := fl.info.TypeOf(sel.X).Underlying().(*types.Pointer); !recvIsPtr {
 								if v, _ := rootVar(fl.info, sel.X); v != nil {
+									// q.push(x) / q.pop() on a stack the function built itself: the
+									// slice is still memory of this call afterwards
+									keepFresh := false
+									if fs.isFresh(v) {
+										if _, _, isPush := fl.m.pushCall(c); isPush {
+											keepFresh = true
+										} else if _, isPop := fl.m.popCall(c); isPop {
+											keepFresh = true
+										}
+									}
 									fs.killVar(v)
+									if keepFresh {
+										if id, ok := ast.Unparen(sel.X).(*ast.Ident); ok {
+											fl.addFresh(fs, id)
+										}
+									}
 								}
 							}
 						}
